@@ -8,7 +8,7 @@
    specification written from the property text (Model/FilterSpec.v). *)
 From Coq Require Import List NArith ZArith Bool.
 From Cfg Require Import Model.Decimal Model.Filter Model.FilterSpec
-  Proofs.Decimal Proofs.Filter Harness.C15 Proofs.FilterHarness.
+  Proofs.Decimal Proofs.Filter Harness.C15 Proofs.FilterHarness Proofs.FilterMarshal.
 Import ListNotations.
 Open Scope N_scope.
 
@@ -70,6 +70,20 @@ Theorem C15_hash_congr :
 Proof. exact hash_congr. Qed.
 Print Assumptions C15_hash_congr.
 
+(* Converse at the pre-image level: the hashed byte string determines the tree (for
+   ALL trees, well-formed or not, whose encoding is shorter than 2^64 bytes), so
+   structurally different trees are hashed from different bytes; what remains between
+   that and "different hashes" is collision resistance of SHA-256. *)
+Theorem C15_hash_preimage_injective :
+  forall f g, small (marshal f) -> small (marshal g) -> marshal f = marshal g -> f = g.
+Proof. exact marshal_inj. Qed.
+Print Assumptions C15_hash_preimage_injective.
+
+Theorem C15_hash_preimage_distinct :
+  forall f g, small (marshal f) -> small (marshal g) -> f <> g -> marshal f <> marshal g.
+Proof. exact marshal_distinct. Qed.
+Print Assumptions C15_hash_preimage_distinct.
+
 (* The decidable oracle applied to the implementation's observed behaviour is
    sound for the property. *)
 Theorem C15_oracle_sound :
@@ -126,3 +140,12 @@ Example C15_ex_numerals :
   numeral ([45;43] ++ repeat 49 40) <> None /\             (* ... but accepted when longer than 41 bytes *)
   num_cmp (150%Z, 2%nat) (15%Z, 1%nat) = Eq.
 Proof. vm_compute. repeat split; discriminate. Qed.
+
+Example C15_ex_marshal_small :
+  small (marshal (Node s_and [] [] [] [] [Node [] [97] s_in [] [[]; [120]] []; Node [] [98] s_ex [] [] []])).
+Proof. unfold small. vm_compute. reflexivity. Qed.
+
+Example C15_ex_marshal_distinguishes :      (* Vals [""] versus no Vals; a leaf versus the same leaf under "and" *)
+  marshal (Node [] [97] s_in [] [[]] []) <> marshal (Node [] [97] s_in [] [] []) /\
+  marshal (Node s_and [] [] [] [] [Node [] [97] s_ex [] [] []]) <> marshal (Node [] [97] s_ex [] [] []).
+Proof. vm_compute. split; discriminate. Qed.
